@@ -246,3 +246,57 @@ pub fn files_below(dir: &Path) -> Vec<PathBuf> {
     out.sort();
     out
 }
+
+// ------------------------------------------------------------------ one storescp per worker thread and mode
+
+struct Scp {
+    proc_: ToolProc,
+    sandbox: tempfile::TempDir,
+}
+
+thread_local! {
+    static SCP: std::cell::RefCell<[Option<Scp>; 2]> = const { std::cell::RefCell::new([None, None]) };
+}
+
+/// (port, sandbox directory) of this thread's dicom-storescp for the mode; started on first use,
+/// restarted when it has exited.  The output directory is `<sandbox>/a/out`.
+pub fn thread_storescp(root: &Path, non_blocking: bool) -> Result<(u16, PathBuf), String> {
+    let slot = non_blocking as usize;
+    SCP.with(|s| {
+        let mut s = s.borrow_mut();
+        if let Some(x) = &mut s[slot] {
+            if let Ok(Some(_)) = x.proc_.child.try_wait() {
+                s[slot] = None;
+            }
+        }
+        if s[slot].is_none() {
+            let sandbox = tempfile::Builder::new().prefix("vcheck-scp-").tempdir().map_err(|e| e.to_string())?;
+            let out = sandbox.path().join("a").join("out");
+            std::fs::create_dir_all(&out).map_err(|e| e.to_string())?;
+            let extra: Vec<&str> = if non_blocking { vec!["--non-blocking"] } else { vec![] };
+            let p = start_storescp(root, &out, &extra, sandbox.path())?;
+            s[slot] = Some(Scp { proc_: p, sandbox });
+        }
+        let x = s[slot].as_ref().unwrap();
+        Ok((x.proc_.port, x.sandbox.path().to_path_buf()))
+    })
+}
+
+pub fn thread_storescp_log_tail(non_blocking: bool, lines: usize) -> String {
+    SCP.with(|s| {
+        s.borrow()[non_blocking as usize]
+            .as_ref()
+            .map(|x| std::fs::read_to_string(&x.proc_.log).unwrap_or_default())
+            .unwrap_or_default()
+            .lines()
+            .rev()
+            .take(lines)
+            .collect::<Vec<_>>()
+            .join(" | ")
+    })
+}
+
+/// forget (and kill) this thread's storescp of the mode, e.g. after it stopped answering
+pub fn thread_storescp_reset(non_blocking: bool) {
+    SCP.with(|s| s.borrow_mut()[non_blocking as usize] = None);
+}
